@@ -29,82 +29,10 @@ MAX_EXAMPLES_PER_FAMILY = 6
 # ---------------------------------------------------------------------------
 # attribution of level-A disagreements to known defect families
 
-def frontier_without_set(p):
-    """True iff the pattern has a top-level `%f` that is not followed by `[` (scanner mirrors item boundaries)."""
-    i, n = 0, len(p)
-
-    def skip_set(i):
-        # i is just after '['
-        if i < n and p[i] == "^":
-            i += 1
-        if i < n and p[i] == "]":
-            i += 1
-        while i < n and p[i] != "]":
-            if p[i] == "%":
-                i += 1
-            i += 1
-        return i + 1
-
-    while i < n:
-        c = p[i]
-        if c == "%":
-            if i + 1 >= n:
-                return False
-            d = p[i + 1]
-            if d == "f":
-                if i + 2 >= n or p[i + 2] != "[":
-                    return True
-                i = skip_set(i + 3)
-                continue
-            if d == "b":
-                i += 4
-                continue
-            i += 2
-        elif c == "[":
-            i = skip_set(i + 1)
-        else:
-            i += 1
-            continue
-        if i < n and p[i] in "*+-?":
-            i += 1
-    return False
-
-
-def dec_vals(v):
-    """'i3,i5' -> [3, 5]; None if not all ints."""
-    out = []
-    for x in v.split(","):
-        if not x.startswith("i"):
-            return None
-        try:
-            out.append(int(x[1:]))
-        except ValueError:
-            return None
-    return out
-
-
-def start_index(slen, init):
-    p = slen + 1 + init if init < 0 else init
-    return max(p - 1, 0)
-
-
 def classify(field, p, s, init, impl, a, flags):
     """Name of the known defect family that explains impl != a on this field, or None."""
-    if frontier_without_set(p):
-        return "frontier-without-set"
-    if "ir" in flags:
-        return "inverted-range"
-    si = start_index(len(s), init)
-    if field == "match":
-        if si > len(s) and p.startswith("^") and a == "n":
-            return "match-init-beyond-end"
-        return None
     if field in ("gsub", "gsub2"):
         tag = "" if field == "gsub" else "2"
-        if p.startswith("^"):
-            return "gsub-ignores-anchor"
-        if ("eo" + tag) in flags and impl.split(",")[0] == "s" + s.encode("latin1").hex():
-            return "gsub-empty-output"
         if ("rej" + tag) in flags:
             return "gsub-count-rejected-empty"
         return None
@@ -292,7 +220,9 @@ def regen_bytesets(ctx):
 
 
 def budget_check(ctx, h):
-    """CPU accounting: cost charged by golua vs the number of machine steps the mirror performs."""
+    """CPU accounting: the units golua charges must cover the number of machine steps the mirror performs
+    (Props.C15.work_le_budget: steps + bytes consumed + bytes compared = used), up to the few units the VM
+    itself charges for the call."""
     for k, n in ((50, 400), (200, 2000)):
         rc, out, err = common.run_harness(h, ["budget", str(k), str(n)])
         if rc != 0:
@@ -301,16 +231,17 @@ def budget_check(ctx, h):
         exp = common.run_oracle("c15", [line])[0]
         I = parse_fields(line.partition(" = ")[2].split(" "))
         B = parse_fields(exp.split(" ")[1:])
-        cpu, steps = int(I["cpu"]), int(B["steps"])
+        cpu, steps, used = int(I["cpu"]), int(B["steps"]), int(B["used"])
         ctx.evaluations += 1
         ctx.count("budget")
         ctx.extra.setdefault("cpu_accounting", []).append({"k": k, "n": n, "cpu_charged": cpu, "model_steps": steps,
-                                                           "wall_us": int(I["wall_us"])})
-        if steps > 100 * max(cpu, 1):
-            ctx.violation("cpu-uncharged-item-walk:k=%d:n=%d" % (k, n),
-                          "string.find(('b'):rep(%d), ('a?'):rep(%d)..'c') performs %d matcher steps, %d CPU units are charged" % (
-                              n, k, steps, cpu),
-                          "c15 budget %d %d\nobserved cpu=%d\nmirror steps=%d (Model.PatMatch ghost counter)\n" % (k, n, cpu, steps))
+                                                           "model_used": used, "wall_us": int(I["wall_us"])})
+        if not (steps <= used <= cpu <= used + 64):
+            ctx.violation("cpu-accounting:k=%d:n=%d" % (k, n),
+                          "string.find(('b'):rep(%d), ('a?'):rep(%d)..'c'): mirror performs %d steps and charges %d units, "
+                          "golua charged %d CPU units (expected mirror's charge plus at most 64 for the call itself)" % (
+                              n, k, steps, used, cpu),
+                          "c15 budget %d %d\nobserved cpu=%d\nmirror steps=%d used=%d\n" % (k, n, cpu, steps, used))
 
 
 def run(ctx):
